@@ -211,6 +211,102 @@ Section Conv.
 
 End Conv.
 
+(* ================= the content writer under a writer ref (content/local writer.go, store.go resumeStatus) =================
+   A conversion opens its writer with content.WithRef("convert-estargz-from-<source digest>") (resp. -zstdchunked-): the ref
+   names the SOURCE layer only, not the options, so an interrupted conversion (signal, write error: Close without Commit
+   keeps the ingest) leaves bytes of ANOTHER build under the ref of the retry.  OpenWriter resumes that ingest (offset =
+   its length, digester re-fed with it); the converters then Truncate(0), stream the new build and Commit(n = bytes copied),
+   which fails when n > 0 differs from the ingest size.  Bytes are an arbitrary type. *)
+Section Writer.
+  Context {byte : Type}.
+
+  Record wst := mkW {
+    w_ing : list (N * list byte);      (* ref -> bytes ingested so far, not committed *)
+    w_blobs : list (list byte)         (* blobs committed by conversions, latest first *)
+  }.
+
+  (* one conversion attempt of the layer with writer ref r whose build (with whatever options) produced bs;
+     cut = Some k: the copy dies after k bytes and the writer is closed without Commit *)
+  Inductive attempt := Att (r : N) (bs : list byte) (cut : option nat).
+
+  Definition resume (s : wst) (r : N) : list byte := match alookup (w_ing s) r with Some d => d | None => [] end.
+  Fixpoint adel {V} (m : list (N * V)) (k : N) : list (N * V) :=
+    match m with [] => [] | (k', v) :: t => if N.eqb k' k then adel t k else (k', v) :: adel t k end.
+  (* writer.Commit: "unexpected commit size" unless size = 0 or size = length of the ingest *)
+  Definition size_ok (data : list byte) (n : nat) : bool := Nat.eqb n 0 || Nat.eqb n (length data).
+
+  (* the converters' sequence: OpenWriter(ref) ; Truncate(0) ; io.Copy ; Commit(n) / Close *)
+  Definition attempt_step (s : wst) (a : attempt) : wst * option (list byte) :=
+    let '(Att r bs cut) := a in
+    (* OpenWriter resumes [resume s r]; w.Truncate(0) discards it *)
+    let w1 : list byte := [] in
+    match cut with
+    | Some k => (mkW (aset (w_ing s) r (w1 ++ firstn k bs)) (w_blobs s), None)
+    | None =>
+        let data := w1 ++ bs in
+        if size_ok data (length bs) then (mkW (adel (w_ing s) r) (data :: w_blobs s), Some data)
+        else (mkW (aset (w_ing s) r data) (w_blobs s), None)
+    end.
+
+  (* NOT the converters' code: the same sequence without Truncate(0) (what a resumed writer does on its own) ... *)
+  Definition attempt_step_resume (s : wst) (a : attempt) : wst * option (list byte) :=
+    let '(Att r bs cut) := a in
+    let w1 := resume s r in
+    match cut with
+    | Some k => (mkW (aset (w_ing s) r (w1 ++ firstn k bs)) (w_blobs s), None)
+    | None =>
+        let data := w1 ++ bs in
+        if size_ok data (length bs) then (mkW (adel (w_ing s) r) (data :: w_blobs s), Some data)
+        else (mkW (aset (w_ing s) r data) (w_blobs s), None)
+    end.
+  (* ... and the variant that skips Status().Offset bytes of the new build and appends the rest *)
+  Definition attempt_step_skip (s : wst) (a : attempt) : wst * option (list byte) :=
+    let '(Att r bs cut) := a in
+    let w1 := resume s r in
+    let rest := skipn (length w1) bs in
+    match cut with
+    | Some k => (mkW (aset (w_ing s) r (w1 ++ firstn k rest)) (w_blobs s), None)
+    | None =>
+        let data := w1 ++ rest in
+        if size_ok data (length w1 + length rest) then (mkW (adel (w_ing s) r) (data :: w_blobs s), Some data)
+        else (mkW (aset (w_ing s) r data) (w_blobs s), None)
+    end.
+
+  Fixpoint run_attempts (s : wst) (l : list attempt) : wst * list (option (list byte)) :=
+    match l with
+    | [] => (s, [])
+    | a :: t => let '(s1, o) := attempt_step s a in let '(s2, os) := run_attempts s1 t in (s2, o :: os)
+    end.
+
+  (* what an attempt is expected to commit *)
+  Definition expected (a : attempt) : option (list byte) :=
+    let '(Att _ bs cut) := a in match cut with None => Some bs | Some _ => None end.
+End Writer.
+
+(* ================= the external-TOC compressor between TOC generation and TOC storage =================
+   esgzexternaltoc.GzipCompressor keeps the last TOC it produced in its buf field (WriteTOCAndFooter, called at the end of
+   estargz.Build / Writer.Close) and writeTOCTo stores whatever buf holds.  layerConvert creates one GzipCompression PER
+   CALL of the convert function, i.e. per layer conversion: conversion i has its own buf.  The two sub-steps of conversion
+   i are separated by the commit of the layer blob, so other conversions run in between.
+     GenTOC i t     conversion i's compressor produces TOC blob t = (digest, size)
+     StoreTOC i d   conversion i stores buf as a blob and records esgzDigest2TOC[d] = buf   (d = its layer digest)
+   [shared] = true is NOT the code: one compressor for all conversions of the converter instance. *)
+Inductive cop := GenTOC (i : N) (t : N * N) | StoreTOC (i : N) (d : N).
+Record cst := mkC { c_bufs : list (N * (N * N)); c_map : tocmap }.
+Definition cbuf_key (shared : bool) (i : N) : N := if shared then 0%N else i.
+Definition cstep (shared : bool) (s : cst) (o : cop) : cst :=
+  match o with
+  | GenTOC i t => mkC (aset (c_bufs s) (cbuf_key shared i) t) (c_map s)
+  | StoreTOC i d =>
+      match alookup (c_bufs s) (cbuf_key shared i) with
+      | Some t => mkC (c_bufs s) (aset (c_map s) d t)
+      | None => s                          (* "TOC hasn't been registered" *)
+      end
+  end.
+Definition crun (shared : bool) (s : cst) (os : list cop) : cst := fold_left (cstep shared) os s.
+(* conversion i generates no TOC in os *)
+Definition no_gen (i : N) (os : list cop) : Prop := forall t, ~ In (GenTOC i t) os.
+
 (* ---- finalize: TOC image manifest ---- *)
 (* entries are (layer digest annotation, (TOC blob digest, size)); the code sorts by TOC digest only (sort.Slice, not
    stable, over a randomly ordered map range); the canonical form used here and by the harness orders ties by layer digest *)
@@ -250,8 +346,10 @@ Inductive obs := OErr | OOk (m : mt) (digest size toc : N) (usize : option N) (l
 
 (* source media type, source digest, source uncompressed label, source blob (as tuple), converted once before?,
    the committed blob (dummy when the conversion failed), observation *)
+(* ... plus the number of bytes found under the conversion's writer ref before and after it *)
 Record clayer := mkLayer {
-  cl_mt : mt; cl_srcdigest : N; cl_srclabel : N; cl_src : cblob; cl_retry : bool; cl_ok : bool; cl_blob : cblob; cl_obs : obs }.
+  cl_mt : mt; cl_srcdigest : N; cl_srclabel : N; cl_src : cblob; cl_retry : bool; cl_ok : bool; cl_blob : cblob; cl_obs : obs;
+  cl_leftover : N; cl_ingest_after : N }.
 
 Record case := mkCase { c_kind : kind; c_layers : list clayer; c_manifest : option (list (N * (N * N))) }.
 
@@ -283,6 +381,9 @@ Definition obs_ok (k : kind) (fin : st) (c : clayer) : bool :=
       mt_eqb m (d_mt d) && N.eqb dg (d_digest d) && N.eqb sz (d_size d) && N.eqb toc (d_toc d)
       && optN_eqb usz (Some (d_usize d))
       && optN_eqb (alookup (sstore fin) (d_digest d)) (Some lab) && N.eqb lab (c_hpay (cl_blob c))
+      (* writer model (attempt_step, completed): whatever was left under the ref, the committed size is the build's
+         (sz = len b above) and no ingest remains under the ref *)
+      && N.eqb (cl_ingest_after c) 0
       && match c_cmp (cl_blob c) with Some x => comp_eqb x (kind_comp k) | None => false end
       && match mt_comp m, c_cmp (cl_blob c) with Some x, Some y => comp_eqb x y | _, _ => false end
   | _, _ => false
